@@ -390,6 +390,53 @@ def run_bank(inp):
     return viols
 
 
+def run_reuse(inp):
+    """One matcher object (template given as a provider) used for tomograms of different pixel sizes, and
+    used twice for the same tomogram: every call stands on its own."""
+    import dask
+    import dask.array as da
+    from scipy import ndimage as ndi
+    from acryo import pick, pipe
+    viols = []
+    r = np.random.default_rng(inp["seed"])
+    n = 8
+    T = np.zeros((n, n, n), dtype=np.float32)
+    for _ in range(6):
+        p = np.clip(np.round((n - 1) / 2 + r.uniform(-0.3, 0.3, 3) * n), 1, n - 2).astype(int)
+        T[tuple(p)] += r.uniform(0.5, 1.5)
+    T = ndi.gaussian_filter(T, 0.9).astype(np.float32)
+    prov = pipe.from_array(T, original_scale=1.0)
+    M = pick.ZNCCTemplateMatcher(prov)
+    results = []
+    for scale in inp["scales"]:
+        Ts = np.asarray(prov(scale), dtype=np.float32)
+        k = Ts.shape[0]
+        shape = (3 * k + 6, 3 * k + 4, 5 * k)
+        ctrs = [(k + 2, k + 1, k + 1), (2 * k + 1, 2 * k, 3 * k + 2)]
+        vol = 0.01 * r.normal(size=shape).astype(np.float32)
+        for ctr in ctrs:
+            lo = [ctr[d] - (k - 1) // 2 for d in range(3)]
+            vol[lo[0]:lo[0] + k, lo[1]:lo[1] + k, lo[2]:lo[2] + k] += Ts
+        half = 0.0 if k % 2 else 0.5
+        want = (np.array(sorted(ctrs), dtype=float) + half) * scale
+        for arr, label in ((vol, "numpy"), (da.from_array(vol, chunks=(k + 3, shape[1], 2 * k)), "dask")):
+            try:
+                with warnings.catch_warnings():
+                    warnings.simplefilter("ignore")
+                    with dask.config.set(scheduler="synchronous"):
+                        out = M.pick_molecules(arr, scale, min_distance=k / 2 * scale, min_score=0.75)
+            except Exception as e:  # noqa: BLE001
+                viols.append({"clause": "no-error", "input": dict(inp),
+                              "desc": f"matcher reused at scale {scale} ({label}): {type(e).__name__}: {str(e)[:100]}"})
+                continue
+            pos = out.pos[np.lexsort(out.pos.T[::-1])] if len(out) else np.zeros((0, 3))
+            if len(pos) != len(want) or np.abs(pos - want).max() > 1e-3 * max(1.0, scale):
+                viols.append({"clause": "reuse", "input": dict(inp),
+                              "desc": f"a matcher built from a template provider, used at scales {inp['scales']} in turn: at scale "
+                                      f"{scale} ({label}) it returns {np.round(pos, 2).tolist()} for particles at {want.tolist()}"})
+    return viols
+
+
 def run_empty(inp):
     """No particle at all, or none in some chunk: an empty result, not an error."""
     import dask
@@ -449,6 +496,8 @@ def oracle(rng, thorough, deep=False, hints=None):
                           scale=1.0, dtype="float32", min_distance=5.0,
                           chunkings=[list(c) for c in _chunk_variants(r, shape, 2 if big else 1)],
                           seed=int(rng.integers(0, 10 ** 6))))
+    cases.append(dict(kind="reuse", scales=[[1.0, 0.5, 1.0], [0.5, 1.0]][int(rng.integers(0, 2))], seed=int(rng.integers(0, 10 ** 6)),
+                      scale=1.0, shape=[0, 0, 0]))
     cases.append(dict(kind="bank", indices=[int(rng.integers(0, 256)), int(rng.integers(256, 343)), 342], seed=int(rng.integers(0, 10 ** 6)),
                       scale=1.0, shape=[24, 24, 56]))
     cases.append(dict(kind="empty", shape=[24, 20, 28], one=False, chunks=[12, 20, 9], seed=0, scale=1.0))
@@ -457,7 +506,7 @@ def oracle(rng, thorough, deep=False, hints=None):
     for c in cases:
         stats["by_kind"][c["kind"]] = stats["by_kind"].get(c["kind"], 0) + 1
         try:
-            viols += run_empty(c) if c["kind"] == "empty" else (run_bank(c) if c["kind"] == "bank" else run_case(c))
+            viols += {"empty": run_empty, "bank": run_bank, "reuse": run_reuse}.get(c["kind"], run_case)(c)
         except Exception as e:  # noqa: BLE001
             viols.append({"clause": "no-error", "desc": f"{c['kind']}: {type(e).__name__}: {str(e)[:120]}", "input": dict(c)})
     return len(cases), viols, stats
@@ -465,5 +514,5 @@ def oracle(rng, thorough, deep=False, hints=None):
 
 def replay(payload):
     inp = dict(payload["input"])
-    v = run_empty(inp) if inp.get("kind") == "empty" else (run_bank(inp) if inp.get("kind") == "bank" else run_case(inp))
+    v = {"empty": run_empty, "bank": run_bank, "reuse": run_reuse}.get(inp.get("kind"), run_case)(inp)
     return {"violated": bool(v), "violations": v}
